@@ -9,5 +9,5 @@ if diff -q /repo/$2 "$SCR/$2" >/dev/null; then echo "MUTATION DID NOT APPLY"; rm
 diff /repo/$2 "$SCR/$2" | head -6
 cd /verif
 set +e
-DASSH_REPO="$SCR" ./check "$1" --tier "${4:-quick}" 2>&1 | cut -c1-260 | tail -6
+VERIF_EVIDENCE_DIR="$SCR/evidence" DASSH_REPO="$SCR" ./check "$1" --tier "${4:-quick}" 2>&1 | cut -c1-260 | tail -6
 rm -rf "$SCR"
